@@ -131,7 +131,7 @@ EndConn(s, c, how) ==       \* the connection is gone: undelivered frames may st
 
 TxFrame(s, ev) ==
   LET c     == ev.c + 1
-      cand  == {i \in Idx(s) : s.acc[i].st # "rej" /\ Same(s.acc[i].desc, ev.rd)}
+      cand  == {i \in Idx(s) : s.acc[i].st # "rej" /\ \E a \in 1..Len(ev.alts) : Same(s.acc[i].desc, ev.alts[a])}
       elig  == {i \in cand : s.acc[i].att = 0 \/ s.acc[i].failed}
       retry == {i \in elig : s.acc[i].failed}
       i     == IF retry # {} THEN Min(retry) ELSE IF elig # {} THEN Min(elig) ELSE 0
